@@ -18,7 +18,7 @@ pub fn pool(thorough: bool) -> Vec<&'static str> {
         "[]", "[0]", "[1]", "[-0]", "[0, 0]", "[0, 1]", "[1, 0]", "[[]]", "[[0]]", "[[], []]", "[\"a\"]", "[\"a\", \"b\"]", "[\"b\"]", "[null]", "[true]", "[0, \"a\"]", "[\"a\", 0]",
         "[{}]", "[[1, 2], [3]]", "[[1, 2], [2]]", "[1, [2]]",
         "{}", "{a: 0}", "{a: 1}", "{a: -0}", "{b: 0}", "{a: 0, b: 0}", "{a: 0, b:: 1}", "{a:: 0}", "{a: 0} + {a::: 0}", "{a: 0} + {b:: 2}", "{a: {b: 1}}", "{a: {b: 2}}", "{a: [1]}",
-        "{a: self.b, b:: 0}", "{[\"a\"]: 0}", "{a: null}", "{\"\": 0}",
+        "{a: self.b, b:: 0}", "{a:: 0, b: 0}", "{a: 0, b:: 0}", "{b:: 0, a: 0, c:: 0}", "{a:: 0} + {a: 0}", "{a: 0} + {a:: 0}", "{a:: 0} + {a::: 0}", "{a:: 1, b: 1}", "{a: 1, b:: 1}", "{[\"a\"]: 0}", "{a: null}", "{\"\": 0}",
         "function(x) x", "function() 0", "std.length",
         "[function(x) x]", "{f: function(x) x}", "{f:: function(x) x, a: 0}",
     ];
